@@ -89,7 +89,7 @@ Definition pt_sem (op : ptop) (v : dval) : dval * option uerr :=
 Definition PT (id : nat) (op : ptop) : ptr := {| pt_id := id; pt_fn := pt_sem op |}.
 
 (** ** Preprocess functions: Preprocess[string,string] (Parse) / Preprocess[*string,string] (Validate) *)
-Inductive preop := PreUpper | PreTrim | PreErr | PreIssue.
+Inductive preop := PreUpper | PreTrim | PreErr | PreIssue | PreWrap.
 Definition opaque_msg : string := "<opaque>".
 Definition PRE (id : nat) (op : preop) : prefn :=
   {| pre_id := id;
@@ -100,6 +100,7 @@ Definition PRE (id : nat) (op : preop) : prefn :=
                          | PreTrim => inl (VStr (trim_sp s))
                          | PreErr => inr (UErr "pre error")
                          | PreIssue => inr (UIssue user_issue)
+                         | PreWrap => inr (UErr "delegated check failed")
                          end)
        | _ => None
        end;
@@ -109,7 +110,7 @@ Definition PRE (id : nat) (op : preop) : prefn :=
                    | PreUpper => inl (DStr (upper s))
                    | PreTrim => inl (DStr (trim_sp s))
                    | PreErr => inr "pre error"
-                   | PreIssue => inr opaque_msg
+                   | PreIssue | PreWrap => inr opaque_msg
                    end
        | _ => inr opaque_msg
        end |}.
